@@ -605,9 +605,9 @@ get_next_token0() {
               (nested_parse_template_instantiation(decl->get_template_scope()));
           }
           token = internal_get_next_token();
-        } else {
-          error(string("unknown template '") + ident->get_fully_scoped_name() + "'", loc);
         }
+        // Otherwise it is not a template, and the angle bracket is a
+        // less-than operator, as in (Enum::value < 3).
       }
     }
     // The last useful token was a SIMPLE_IDENTIFIER, thus this is a normal
